@@ -101,6 +101,8 @@ class World:
         if path is None:
             path = os.path.join(env.scratch_dir(), f"w-{os.getpid()}-{next(_counter)}.db")
             self._from_template(path)
+        elif not os.path.exists(path):
+            self._from_template(path)
         self.path = path
         self.url = f"sqlite:///{path}"
         self.ledger: list[dict] = ledger if ledger is not None else []
